@@ -83,6 +83,23 @@ func c01(r *Report) propMeta {
 	}, GateOpts{FailIsError: true, LoopAll: true})
 	r.Exists("dup-eid-recorded", "x/oracle/types.MsgReportData.ValidateBasic", MapUpdEff("field:RawReport.ExternalID", "field:MsgReportData.RawReports"), 1)
 
+	r.Rule("C01.R9", "rejection census: a report is refused only for the stated reasons")
+	r.FailureCensus("report-rejections", oMS+"ReportData", map[string]reject{
+		"data-too-large":   {[]string{"global:types.ErrTooLargeRawReportData"}, []Cond{{Op: "LSS", A: []string{"field:Params.MaxReportDataSize"}, B: []string{"len", "field:RawReport.Data"}, Want: true}}},
+		"bad-validator":    {[]string{"^~call:types.ValAddressFromBech32"}, nil},
+		"already-expired":  {[]string{"global:types.ErrRequestAlreadyExpired"}, []Cond{{Op: "LSS", A: []string{"call:Keeper.GetRequestLastExpired"}, B: []string{"field:MsgReportData.RequestID"}, Want: false}}},
+		"add-report-error": {[]string{"^~call:Keeper.AddReport"}, nil},
+	})
+	r.FailureCensus("report-rejections", oK+"AddReport", map[string]reject{"invalid-report": {[]string{"^~call:Keeper.CheckValidReport"}, nil}})
+	r.FailureCensus("report-rejections", oK+"CheckValidReport", map[string]reject{
+		"unknown-request":  {[]string{"^~call:Keeper.GetRequest"}, nil},
+		"bad-stored-addr":  {[]string{"^~call:types.ValAddressFromBech32"}, nil},
+		"not-requested":    {[]string{"global:types.ErrValidatorNotRequested"}, []Cond{{Op: "BOOL", A: []string{"^phi", "call:ValAddress.Equals"}, Want: false}}},
+		"already-reported": {[]string{"global:types.ErrValidatorAlreadyReported"}, []Cond{{Op: "BOOL", A: []string{"^call:Keeper.HasReport"}, Want: true}}},
+		"wrong-size":       {[]string{"global:types.ErrInvalidReportSize"}, []Cond{{Op: "EQL", A: []string{"len", "param:rawReports"}, B: []string{"len", "field:Request.RawRequests"}, Want: false}}},
+		"unknown-eid":      {[]string{"global:types.ErrRawRequestNotFound"}, []Cond{{Op: "BOOL", A: []string{"^call:keeper.ContainsEID"}, Want: false}}},
+	})
+
 	// R6 exactly one resolve
 	r.Rule("C01.R6", "E5 exactly-once")
 	r.Count("one-resolve", oK+"ResolveRequest", []Effect{CallEff("Keeper.ResolveSuccess"), CallEff("Keeper.ResolveFailure")}, "all", 1, 1)
@@ -138,7 +155,7 @@ func c01(r *Report) propMeta {
 			"R5 CheckValidReport nil-return gated by requested-validator / not-yet-reported / size / external-id checks (failing edge returns an error); SetReport gated by it; duplicate external ids rejected in ValidateBasic",
 			"R6 ResolveRequest runs exactly one of ResolveSuccess/ResolveFailure on every path, each saves exactly one result with its own status constant",
 			"R7 EndBlocker resolves, then clears the list exactly once with a fresh empty list, then processes expiry",
-			"R8 every NewResult argument is the like-named field of the stored request / the live report count / block time",
+			"R9 ReportData / AddReport / CheckValidReport reject only for the frozen set of reasons (a new rejection, e.g. a height-based expiry test in the message path, is reported)", "R8 every NewResult argument is the like-named field of the stored request / the live report count / block time",
 		},
 		Undecided: []string{"correctness of the owasm script output", "that the pending list never carries a stale id across blocks (history invariant; R7 is its structural half)", "interleavings beyond the per-path facts"},
 		Assume:    []string{"go/types + go/ssa + VTA call graph are sound for this reflection-free keeper code", "baseapp runTx executes a message atomically", "genesis import is trusted (InitGenesis may write the stores)"},
